@@ -199,3 +199,12 @@ impl Distance2 {
 // `a.extend(b.into_iter().skip(1))` on Vecs
 #[verifier::external_body]
 pub fn vf_extend_skip1<T>(a: &mut Vec<T>, b: Vec<T>) ensures final(a)@ == old(a)@ + (if b@.len() >= 1 { b@.subrange(1, b@.len() as int) } else { b@ }) { unimplemented!() }
+// `xs.iter().min_by(|a, b| a.partial_cmp(b).unwrap())` on f64 (so that a changed selection is still judged)
+#[verifier::external_body]
+pub fn vf_min_f64(xs: &Vec<f64>) -> (r: Option<f64>)
+    ensures xs@.len() == 0 ==> r.is_none(),
+            xs@.len() > 0 ==> r.is_some() && xs@.contains(r.unwrap()) && forall|i: int| 0 <= i < xs@.len() ==> rv(#[trigger] xs@[i]) >= rv(r.unwrap())
+{ unimplemented!() }
+// `v.reverse()` on a Vec
+#[verifier::external_body]
+pub fn vf_vec_reverse<T>(v: &mut Vec<T>) ensures final(v)@ == old(v)@.reverse() { v.reverse() }
